@@ -232,6 +232,13 @@ def _is_symfloat(x):
     return _real_isinstance(x, symfloat.SymFloat)
 
 
+def v_len(x):
+    n = getattr(x, '_symlen', None)
+    if n is not None:
+        return n
+    return len(x)
+
+
 def v_ord(c):
     if _real_isinstance(c, VStr):
         if len(c._d) != 1:
@@ -412,7 +419,7 @@ def make_builtins():
     d.update({
         'bytes': VBytes, 'bytearray': VByteArray,
         'isinstance': v_isinstance, 'hash': v_hash, 'range': v_range,
-        'min': v_min, 'max': v_max, 'ord': v_ord, 'chr': v_chr, 'print': _noprint,
+        'min': v_min, 'max': v_max, 'len': v_len, 'ord': v_ord, 'chr': v_chr, 'print': _noprint,
         '__B__': VBytes, '__vint__': core.vint, '__vstr__': v_str, '__vrepr__': v_repr,
         '__vfloat__': v_float, '__fmt__': vtypes.fmt, '__ite__': v_ite, '__getitem__': v_getitem,
         '__contains__': v_contains, '__not__': v_not, '__cm__': v_cm, '__intcls__': _IntCls,
@@ -436,7 +443,7 @@ class Lib(object):
         self.stubmods = {
             'struct': stubs.make_struct(), 'io': stubs.make_io(), 'hashlib': stubs.make_hashlib(),
             'binascii': stubs.make_binascii(), 'base64': stubs.make_base64(), 'socket': stubs.make_socket(),
-            'time': stubs.make_time(), 'random': stubs.make_random(),
+            'time': stubs.make_time(), 'random': stubs.make_random(), 'math': stubs.make_math(),
         }
         self.sources = {}
         self.key_stub = key_stub
